@@ -48,6 +48,35 @@ def run(chk):
            loc=r.fi.loc())
     chk.ob("R-PL-LEN", c + "[len]", "first dimension is the record's length", r.ret.shape is not None and r.ret.shape[0] == LinExpr("n"),
            derived="shape %r" % (r.ret.shape,), loc=r.fi.loc(), inconclusive=(r.ret.shape is None and r.ret.indef))
+    # the step function's nodes (this design: np.insert + interp1d): a zero count at index 0 in front, the final count repeated at index
+    # len(values) behind -- so the count is 0 before the first peak and holds its last value to the end of the record
+    inserts = [n for n in ast.walk(r.fi.node) if isinstance(n, ast.Assign) and len(n.targets) == 1 and isinstance(n.targets[0], ast.Name) and
+               isinstance(n.value, ast.Call) and ast.unparse(n.value.func) in ("np.insert", "numpy.insert") and len(n.value.args) >= 3 and
+               isinstance(n.value.args[0], ast.Name) and n.value.args[0].id == n.targets[0].id]
+    groups = {}
+    for n in sorted(inserts, key=lambda x: x.lineno):
+        groups.setdefault(n.targets[0].id, []).append(n)
+    if len(inserts) == 4 and len(groups) == 2 and all(len(g) == 2 for g in groups.values()):
+        from ..poly import Normaliser as _N
+        nm_ = _N()
+        xname = [k for k, g in groups.items() if ast.unparse(g[1].value.args[2]).replace(" ", "") == "len(values)"]
+        yname = [k for k in groups if k not in xname]
+        for k, g in groups.items():
+            a_ = g[0].value.args
+            chk.ob("R-PL-LEN", c + "{nodes: %s leads}" % k, "a zero is put in front: np.insert(%s, 0, 0)" % k,
+                   nm_.poly(a_[1]) == Poly.const(0) and nm_.poly(a_[2]) == Poly.const(0), derived=norm_stmt(g[0]), loc=r.fi.loc(g[0]), stmt=norm_stmt(g[0]))
+        if len(yname) == 1 and len(xname) == 1:
+            Y, X = yname[0], xname[0]
+            lenY, lenX = nm_.poly(ast.parse("len(%s)" % Y, mode="eval").body), nm_.poly(ast.parse("len(%s)" % X, mode="eval").body)
+            gy, gx = groups[Y][1], groups[X][1]
+            py = nm_.poly(gy.value.args[1])
+            chk.ob("R-PL-LEN", c + "{nodes: final count repeated}", "the final count is repeated behind: inserted at the end (or before the last, its copy)",
+                   py in (lenY, lenY - Poly.const(1)) and ast.unparse(gy.value.args[2]).replace(" ", "") == "%s[-1]" % Y, derived=norm_stmt(gy), loc=r.fi.loc(gy), stmt=norm_stmt(gy))
+            px, vx = nm_.poly(gx.value.args[1]), nm_.poly(gx.value.args[2])
+            after_y = gx.lineno > gy.lineno
+            okx = vx == nm_.poly(ast.parse("len(values)", mode="eval").body) and (px == lenX or (after_y and px == lenY - Poly.const(1)))
+            chk.ob("R-PL-LEN", c + "{nodes: end index}", "index len(values) is appended to the peak indices", okx, derived=norm_stmt(gx),
+                   loc=r.fi.loc(gx), stmt=norm_stmt(gx))
     cut = [e for e in r.events("compare", r.fi.qualname) if "p:cut_off" in (e.left.tags | e.right.tags) or "red:max" in (e.left.tags | e.right.tags)]
     for e in cut[:1]:
         chk.ob("R-PL-DEG", c + "{cut-off}", "both sides of the cut-off comparison have degree 1 and are even", alg_degree(e.left.a(R)) == Exp(1) and
@@ -76,6 +105,10 @@ def run(chk):
         expect(chk, "R-PL-DEG", c, r.ret, deg={R: 1}, parity={R: "even"}, atoms=(R, N), loc=r.fi.loc())
         expect(chk, "R-PL-INV", c + "[exponents]", r.ret, deg={N: -Exp({1: 1})}, atoms=(R, N), loc=r.fi.loc())
         expect(chk, "R-PL-LEN", c, r.ret, length="n", sign="nonneg", mono=0, kind=K_ARRAY, tags_has=["cum", "abs"], loc=r.fi.loc())
+        if q == "calc_cyc_amp_array_w_power_law":
+            # with a scalar exponent the series is one-dimensional, one value per sample (the column axis exists only for an array of b)
+            chk.ob("R-PL-LEN", c + "[scalar b: 1-D]", "for a scalar b the result has shape (len(values),)", r.ret.shape is not None and len(r.ret.shape) == 1,
+                   derived="shape %r" % (r.ret.shape,), loc=r.fi.loc(), inconclusive=r.ret.shape is None)
         if not q.endswith("gm_arrays_w_power_law"):
             half_weight(chk, r.fi, c, "/ 2 / n_cyc")
     # ------------------------------------------------------------------ integer records: buffers inherit the record's dtype
@@ -117,6 +150,12 @@ def run(chk):
                    derived="sign of a value with provenance %s" % (sorted(t for t in e.args[0].tags if t.startswith(("ret:", "p:"))),), loc=e.loc, stmt=e.stmt,
                    detail="a leading plateau gives sign 0: both peak-only series come out identically zero" if
                    "ret:clean_out_non_changing#0" not in e.args[0].tags else None)
+        for e in sg[:1]:
+            a_ = e.node.args[0] if getattr(e.node, "args", None) else None
+            if isinstance(a_, ast.Subscript) and isinstance(a_.slice, ast.Constant) and type(a_.slice.value) is int:
+                # the cleaned array starts at 0 (rebased) and its second sample differs from the first: sample 1 IS the first movement
+                chk.ob("R-PK-SHIFT", c + "{orientation sample}", "the orienting sign is that of the cleaned array's second sample (the first movement)",
+                       a_.slice.value == 1, derived="sample %d" % a_.slice.value, loc=e.loc, stmt=e.stmt)
         puts = [e for e in r.events("lib-call", PK + q) if e.name == "numpy.put"]
         if len(puts) == 1:
             tgt, ind, vals = puts[0].args[:3]
